@@ -32,6 +32,7 @@ Import ListNotations.
 From Ont Require Import Lib.Bytes Model.KV Gen.ContractConsts.
 Local Open Scope N_scope.
 Open Scope bool_scope.
+Local Notation length := List.length.
 
 Definition ST_STORAGE : N := C44_ST_STORAGE.
 Definition ST_CONTRACT : N := C44_ST_CONTRACT.
